@@ -995,7 +995,10 @@ func c12JudgePhase(t *c12Ctx, label string) bool {
 func c12BracketOK(w *mon.W, k *stats.KDE, xmin, xmax float64) (ok bool, msg string) {
 	lo, hi := xmin, xmax
 	if lo == hi {
-		lo, hi = lo-1, hi+1
+		// a step that is a step at this magnitude (an absolute +-1 is lost
+		// in rounding beyond 2^53)
+		d := math.Max(1, math.Abs(lo)*0x1p-40)
+		lo, hi = lo-d, hi+d
 	}
 	const budget = 2200
 	var f float64
